@@ -5,47 +5,57 @@ import Mathlib.Tactic.NormNum
 import Mathlib.Tactic.Linarith
 
 /-!
-# C01 — witnesses where the current code falsifies a clause of the property
+# C01 — the inputs on which the code used to falsify the property, re-checked on the current source
 
-Both are statements about the functions *translated from the source* (`Generated/FormsR.lean`), checked by the kernel.
+History (both were genuine defects found by this property's oracle; the statements below were *counter*-witnesses
+until the fixes landed and are now kernel-checked facts about the functions translated from the fixed source):
 
-* `m2e_start_overflows`: for the hyperbolic orbit e = 1.2, M = 720 (true H ≈ 7.09, inside the property's domain) the
-  start value chosen by `Form.M2E` is 718.8; `sinh`/`cosh` of that overflow IEEE doubles (> 709.78), the first Newton
-  update is `(M − inf + H)/(inf − 1) = NaN`, the loop test `abs(NaN − H) >= tol` is false and NaN is returned.
-  (The overflow itself is a floating-point fact, replayed on the implementation by the oracle.)
-* `mean_circular_shifts_hyperbolic_M`: mean → mean-circular → mean returns `M − 2π` instead of `M` for ω = 0, M = 7;
-  for a hyperbola the mean anomaly is not an angle, so this is a different orbit state.
+* until fix 31f549a `m2eStart 1.2 720 = 718.8` (`m2e_start_overflows`): `sinh`/`cosh` of the start value overflowed
+  IEEE doubles and `Form.M2E` returned NaN silently.  Now the start value is clamped to the asymptotic solution
+  `ln(2·720/1.2 + 1.8) ≈ 7.09 < 30` (`m2e_start_clamped`).
+* until fix 3686717 mean → mean-circular → mean returned `M − 2π` for the hyperbolic state e = 2, ω = 0, M = 7
+  (`mean_circular_shifts_hyperbolic_M`).  Now it returns `M` itself (`mean_circular_keeps_hyperbolic_M`; the general
+  statement is `C01.mean_mcirc_mean_hyperbolic`).
+
+If either defect returns, these theorems stop compiling (the definitions are regenerated from the source on every run)
+and the oracle families `m2e-hyperbolic-start-overflow` / `mean-circular-hyperbolic-M-mod-2pi` report the inputs.
 -/
 namespace BeyondVerif.C01W
 open BeyondVerif.R BeyondVerif.NumReal BeyondVerif.Ang
 
-theorem m2e_start_overflows : m2eStart (1.2 : ℝ) 720 = 718.8 ∧ (709.78 : ℝ) < 718.8 := by
+/-- e = 1.2, M = 720 (true H ≈ 7.09): the Newton iteration starts from `ln(2M/e + 1.8)`, well inside the range of `sinh` -/
+theorem m2e_start_clamped : m2eStart (1.2 : ℝ) 720 = Real.log (2 * 720 / 1.2 + 1.8) ∧ Real.log (2 * 720 / 1.2 + 1.8) < 30 := by
   have hpi : Real.pi < 4 := Real.pi_lt_four
   have h1 : ¬ ((1.2 : ℝ) < 1) := by norm_num
   have h2 : (1.2 : ℝ) < 1.6 := by norm_num
   have h3 : ((-pi < (720 : ℝ) ∧ (720 : ℝ) < 0) ∨ (720 : ℝ) > pi) := Or.inr (by simp only [pi]; linarith)
-  refine ⟨?_, by norm_num⟩
-  simp only [m2eStart, if_neg h1, if_pos h2, if_pos h3]
-  norm_num
+  have h4 : absR ((720 : ℝ) - 1.2) > 30 := by simp only [absR]; rw [abs_of_pos (by norm_num)]; norm_num
+  have h5 : (720 : ℝ) > 0 := by norm_num
+  have h6 : absR (720 : ℝ) = 720 := by simp only [absR]; exact abs_of_pos h5
+  refine ⟨?_, ?_⟩
+  · simp only [m2eStart, if_neg h1, if_pos h2, if_pos h3, if_pos h4, if_pos h5, h6, log, one_mul]
+  · have hE : (1203 : ℝ) ≤ Real.exp 30 := by
+      have h10 := Real.add_one_le_exp (10 : ℝ)
+      have h30 : Real.exp 30 = Real.exp 10 * Real.exp 10 * Real.exp 10 := by rw [← Real.exp_add, ← Real.exp_add]; norm_num
+      have hp : (0 : ℝ) < Real.exp 10 := Real.exp_pos 10
+      rw [h30]; nlinarith [mul_pos hp hp]
+    calc Real.log (2 * 720 / 1.2 + 1.8) < Real.log 1203 := Real.log_lt_log (by norm_num) (by norm_num)
+      _ ≤ Real.log (Real.exp 30) := Real.log_le_log (by norm_num) hE
+      _ = 30 := Real.log_exp 30
 
-theorem mean_circular_shifts_hyperbolic_M (mu a i Ω : ℝ) :
-    app6 mcircToMean mu (meanToMcirc mu a 2 i Ω 0 7) = [a, 2, i, Ω, 0, 7 - 2 * Real.pi] ∧ (7 - 2 * Real.pi ≠ 7) := by
-  have hpi3 : 3 < Real.pi := Real.pi_gt_three
-  have hpi4 : Real.pi < 3.15 := Real.pi_lt_d2
-  have hfl : ⌊(7 : ℝ) / (2 * Real.pi)⌋ = 1 := by
-    rw [Int.floor_eq_iff]
-    constructor
-    · rw [le_div_iff₀ (by positivity)]; push_cast; linarith
-    · rw [div_lt_iff₀ (by positivity)]; push_cast; linarith
+/-- e = 2, ω = 0, M = 7: the hyperbolic mean anomaly survives the mean-circular form unchanged -/
+theorem mean_circular_keeps_hyperbolic_M (mu a i Ω : ℝ) :
+    app6 mcircToMean mu (meanToMcirc mu a 2 i Ω 0 7) = [a, 2, i, Ω, 0, 7] := by
   have hs : Real.sqrt ((2 : ℝ) ^ 2 + 0 ^ 2) = 2 := by
     rw [show ((2 : ℝ) ^ 2 + 0 ^ 2) = 2 ^ 2 by norm_num, Real.sqrt_sq (by norm_num)]
   have hat : atan2 (0 : ℝ) 1 = 0 := by
     unfold atan2
     have : (⟨1, 0⟩ : ℂ) = 1 := by apply Complex.ext <;> simp
     rw [this, Complex.arg_one]
-  refine ⟨?_, by intro h; linarith⟩
+  have h2 : ¬ ((2 : ℝ) < 1) := by norm_num
+  have hf : fmod (0 : ℝ) (2 * pi) = 0 := fmod_eq_self two_pi_pos le_rfl two_pi_pos
   simp only [meanToMcirc, app6, mcircToMean, powi, sqrt, cos, sin, Real.cos_zero, Real.sin_zero, mul_one, mul_zero, hs, zero_div,
-    fmod, pi, zero_add, hfl]
-  norm_num [hat]
+    if_neg h2, hf, zero_add]
+  norm_num [hat, hf]
 
 end BeyondVerif.C01W
